@@ -362,12 +362,96 @@ class DB:
 _cache = {}
 
 
+def fn_vars(f):
+    """the parameters and locals of a function in declaration order: (name, kind, type, shape of the initialiser)"""
+    out = [(p['name'], 'param:%d' % i, p['t'], '') for i, p in enumerate(f.params) if p.get('name')]
+    seen = set()
+    decls = []
+    for bid, i, st in f.stmts():
+        for x in nodes(st, lambda y: y.get('k') == 'decl'):
+            for v in x['vars']:
+                if v.get('did') in seen:
+                    continue
+                seen.add(v.get('did'))
+                init = strip(v.get('init')) if v.get('init') is not None else None
+                shape = '' if init is None else (init.get('callee') or '') + ':' + init.get('k', '') + (':' + str(init['v']) if init.get('k') == 'lit' else '')
+                decls.append((v.get('did') or '', v['name'], v['t'], shape))
+    def key(d_):
+        m = re.search(r'@(\d+):(\d+)$', str(d_[0]))
+        return (int(m.group(1)), int(m.group(2))) if m else (1 << 30, 0)
+    decls.sort(key=key)
+    return out + [(n, 'local', t, sh) for _, n, t, sh in decls]
+
+
+NAMES_REF = os.path.join(VERIF, 'sa', 'names_ref.json')
+
+
+def align_names(db):
+    """Rename-robustness (DESIGN.md §2.1): the rules were written against the names that parameters and locals have on the
+    pinned tree (sa/names_ref.json, generated by tools/mknamesref.py).  When a function of the analysed tree lacks a
+    reference variable and has a variable the reference does not know, of the same kind and type, that variable is the
+    renamed one: it is given its reference name in the fact base.  Variables whose names are unchanged are never touched."""
+    if not os.path.exists(NAMES_REF):
+        return 0
+    ref = json.load(open(NAMES_REF))
+    total = 0
+    for name, f in db.fn.items():
+        r = ref.get(name)
+        if not r or not f.blocks:
+            continue
+        cur = fn_vars(f)
+        cur_names = {c[0] for c in cur}
+        ref_names = {x[0] for x in r}
+        missing = [tuple(x) for x in r if x[0] not in cur_names]
+        new = [c for c in cur if c[0] not in ref_names]
+        if not missing or not new:
+            continue
+        ren = {}
+        groups = {}
+        for m in missing:
+            groups.setdefault((m[1] if m[1].startswith('param') else 'local', m[2]), [[], []])[0].append(m)
+        for c in new:
+            g = groups.get((c[1] if c[1].startswith('param') else 'local', c[2]))
+            if g is not None:
+                g[1].append(c)
+        for (kind, typ), (ms, cs) in groups.items():
+            if len(ms) == len(cs):
+                for m, c in zip(ms, cs):                 # same number vanished and appeared: declaration order pairs them
+                    ren[c[0]] = m[0]
+            else:
+                for m in ms:                             # otherwise only an initialiser shape that is unique on both sides
+                    same = [c for c in cs if c[3] == m[3] and c[0] not in ren]
+                    if len(same) == 1 and len([x for x in ms if x[3] == m[3]]) == 1:
+                        ren[same[0][0]] = m[0]
+        if not ren:
+            continue
+        total += len(ren)
+        for p in f.params:
+            if p.get('name') in ren:
+                p['name'] = ren[p['name']]
+        for bid, i, st in f.stmts():
+            for x in nodes(st, lambda y: y.get('k') in ('var', 'decl')):
+                if x['k'] == 'var' and x.get('decl') in ('local', 'param') and x['name'] in ren:
+                    x['name'] = ren[x['name']]
+                elif x['k'] == 'decl':
+                    for v in x['vars']:
+                        if v['name'] in ren:
+                            v['name'] = ren[v['name']]
+        for b in f.blocks.values():
+            t = b.get('term') or {}
+            for k_ in ('cond',):
+                pass
+        f.renamed = ren
+    return total
+
+
 def load(repo='/repo', defines=()):
     key = (repo, tuple(defines))
     if key not in _cache:
         t = time.time()
         units = extract(repo, defines)
         db = DB(units, repo)
+        db.aligned_names = align_names(db)
         db.extract_s = time.time() - t
         db.defines = tuple(defines)
         _cache[key] = db
